@@ -40,19 +40,22 @@ Definition send_differs (contract : bytes) (c : preconf) (to cd : bytes) : optio
   | _, None => Some "amount"%string
   end.
 
+(* the successful submission that carries commitment w must have COMPLETED before w was written: its rank
+   among the successful submissions is at most the number of successful submissions seen at the write
+   (concurrent handlers: another handler's success does not count) *)
 Definition write_violation (c : Check_C01.case) (w : write_obs) : option string :=
-  let sends := o_sends (ob c) in
-  let oks := filter (fun s => snd s) sends in
+  let sends := combine (o_sends (ob c)) (o_send_seq (ob c)) in
+  let oks := filter (fun s => snd (fst s)) sends in
+  let carries s := match send_differs (contract c) (wo_c w) (fst (fst (fst s))) (snd (fst (fst s))) with
+                   | None => true | Some _ => false end in
   if wo_sends_ok_before w =? 0 then
-    if existsb (fun s => negb (snd s)) sends then Some "commitment-after-store-failure"%string
+    if existsb (fun s => negb (snd (fst s))) sends then Some "commitment-after-store-failure"%string
     else Some "write-before-store"%string
   else
-    (* some successful transaction carries exactly this commitment *)
-    if existsb (fun s => match send_differs (contract c) (wo_c w) (fst (fst s)) (snd (fst s)) with
-                         | None => true | Some _ => false end) oks
-    then None
+    if existsb (fun s => carries s && (1 <=? snd s) && (snd s <=? wo_sends_ok_before w)) oks then None
+    else if existsb carries oks then Some "write-before-store"%string
     else match oks with
-         | s :: _ => match send_differs (contract c) (wo_c w) (fst (fst s)) (snd (fst s)) with
+         | s :: _ => match send_differs (contract c) (wo_c w) (fst (fst (fst s))) (snd (fst (fst s))) with
                      | Some k => Some (String.append "calldata-differs:" k)
                      | None => None end
          | [] => Some "write-before-store"%string
